@@ -398,6 +398,15 @@ c = S.ext("queue.Queue", cite="queue.Queue(): new empty queue")
 c.returns(T.Ref("queue.Queue"), fresh=True).modifies()
 
 
+@_impl("weakref.ref", cite="weakref.ref(obj, callback=None): a new weak reference to obj (does not keep it alive); the callback runs when obj is collected")
+def _wr_new(eng, st, self_v, args, kwargs, node):
+    from pyvc.values import to_obj_term
+    r = st.new_obj("weakref.ref")
+    st.ghost_set("referent", z3.Store(st.ghost_get("referent"), r.t, to_obj_term(args[0])))
+    st.emit("weakref_new", [r] + list(args), eng.site(node))
+    return [eng.val(st, r)]
+
+
 @_impl("weakref.ref.__call__", cite="weakref.ref(): the referent or None once collected (volatile)")
 def _deref(eng, st, self_v, args, kwargs, node):
     from pyvc.values import fresh_const, VRef
@@ -535,6 +544,17 @@ c = S.ext("threading.Lock", cite="threading.Lock(): a new lock")
 c.returns(T.Ref("threading.Lock"), fresh=True).modifies()
 c = S.ext("threading.RLock", cite="threading.RLock(): a new lock")
 c.returns(T.Ref("threading.RLock"), fresh=True).modifies()
+
+
+c = S.ext("threading.Thread.__init__", cite="Thread.__init__(name=..., daemon=None): a thread object, not started")
+c.param("self", T.Ref("threading.Thread")).param("name", T.Obj, default=NONE).param("daemon", T.Obj, default=NONE).event("thread_init", "self", "name").modifies()
+
+
+c = S.ext("threading.Thread.start", cite="Thread.start(): starts the thread; RuntimeError when threads cannot be started (interpreter shutting down / resources)")
+c.param("self", T.Ref("threading.Thread")).event("thread_start", "self").modifies()
+c.may_raise.append(("RuntimeError", None))
+c = S.ext("threading._register_atexit", cite="threading._register_atexit(func): func runs before the interpreter joins its non-daemon threads")
+c.param("func", T.Obj).returns(T.Obj).event("register_atexit", "func").ensures("a-handle", "result is not None").modifies()
 
 
 @_impl("threading.Thread.join", cite="Thread.join(): blocks until the thread ends")
